@@ -1,6 +1,7 @@
 package main
 
 import (
+	"sort"
 	"fmt"
 	"go/ast"
 	"go/token"
@@ -741,4 +742,290 @@ func ruleExamineBypasses(r *Run, rule string) {
 		bad = "examineBypasses never answers true"
 	}
 	r.Check(rule, "examineBypasses:true-only-if-completed", bpos, bad == "", "%s", orOK(bad, "true exactly on the Completed branch"))
+}
+
+// ruleYieldDiscipline: in fn (and its literals) the bool result of every call of a
+// function-typed parameter named like a yield/visitor, and of every callee in
+// `visitors`, is tested and the false branch returns at once — or the call is
+// directly followed by a return. One obligation per call site.
+func ruleYieldDiscipline(r *Run, rule string, fn *Func, visitors map[string]bool) int {
+	n := 0
+	label := strings.TrimPrefix(fn.Key, relPkg(fn.Pkg.PkgPath)+".")
+	check := func(fl *Flow, paths []Path) {
+		type site struct {
+			pos  token.Pos
+			name string
+			bad  string
+		}
+		sites := map[token.Pos]*site{}
+		for i := range paths {
+			p := &paths[i]
+			for ci, e := range p.Ev {
+				if e.Kind != EvCall || e.Deferred {
+					continue
+				}
+				isVisitor := false
+				name := ""
+				if v, ok := e.Callee.(*types.Var); ok {
+					if sig, ok := v.Type().Underlying().(*types.Signature); ok && sig.Results().Len() == 1 {
+						if b, ok := sig.Results().At(0).Type().Underlying().(*types.Basic); ok && b.Kind() == types.Bool && !v.IsField() {
+							isVisitor, name = true, v.Name()
+						}
+					}
+				}
+				if k := CalleeKey(e); visitors[k] {
+					isVisitor, name = true, ShortFn(k)
+				}
+				if !isVisitor {
+					continue
+				}
+				s := sites[e.Pos]
+				if s == nil {
+					s = &site{pos: e.Pos, name: name}
+					sites[e.Pos] = s
+				}
+				u := UseOfResult(fl, p, ci)
+				problem := ""
+				switch u.Verdict {
+				case "false":
+					// must return before any further visitor call
+					ri := FirstAfter(p, u.At, func(x Event) bool { return x.Kind == EvReturn && !x.Deferred })
+					vi := FirstAfter(p, u.At, func(x Event) bool {
+						if x.Kind != EvCall {
+							return false
+						}
+						if v, ok := x.Callee.(*types.Var); ok && v.Name() == name {
+							return true
+						}
+						return visitors[CalleeKey(x)]
+					})
+					li := FirstAfter(p, u.At, func(x Event) bool { return x.Kind == EvRange || x.Kind == EvSelect })
+					if p.Exit == ExitReturn && (ri < 0 && len(p.Ev) > 0 || (vi >= 0 && (ri < 0 || vi < ri)) || (li >= 0 && (ri < 0 || li < ri))) {
+						problem = "after " + name + " answered false the function keeps going (next visit/loop before any return): iteration must stop immediately when the consumer stops"
+					}
+					if ri >= 0 && len(p.Ev[ri].Rhs) == 1 && ValueKey(fl.Info, p.Ev[ri].Rhs[0]) == "true" {
+						problem = "the false answer of " + name + " is turned into true: the caller continues the walk"
+					}
+				case "true", "returned":
+				default:
+					if u.Kind == "direct-return" {
+						break
+					}
+					// discarded: acceptable only if directly followed by a return
+					next := FirstAfter(p, ci, func(x Event) bool { return !x.Deferred && x.Kind != EvBranch })
+					if next < 0 || p.Ev[next].Kind != EvReturn {
+						if p.Exit == ExitReturn || next >= 0 {
+							problem = "the result of " + name + " is ignored (" + u.Kind + "/" + u.Verdict + ") and the function continues: when the consumer stops, iteration goes on (a range-over-func iterator then panics with 'continued iteration after function for loop body returned false')"
+						}
+					}
+				}
+				if problem != "" && s.bad == "" {
+					s.bad = problem
+				}
+			}
+		}
+		var ps []token.Pos
+		for p := range sites {
+			ps = append(ps, p)
+		}
+		sort.Slice(ps, func(i, j int) bool { return ps[i] < ps[j] })
+		for i, p := range ps {
+			s := sites[p]
+			n++
+			r.Check(rule, "visit-result:"+label+":"+s.name+"#"+itoa(i+1), s.pos, s.bad == "", "%s", orOK(s.bad, "result of "+s.name+" tested; false ⇒ immediate return"))
+		}
+	}
+	fl := r.P.FlowOf(fn)
+	r.Funcs[fn.Key] = true
+	if paths, ok := fl.Paths(); ok {
+		r.Paths += len(paths)
+		check(fl, paths)
+	}
+	var all []*ast.FuncLit
+	ast.Inspect(fn.Decl.Body, func(nn ast.Node) bool {
+		if l, ok := nn.(*ast.FuncLit); ok {
+			all = append(all, l)
+		}
+		return true
+	})
+	for _, l := range all {
+		if lf, lp, ok := r.litPaths(rule, l); ok {
+			check(lf, lp)
+		}
+	}
+	return n
+}
+
+// ruleOptionWiring: each public option forwards to the internal option of the same
+// name, and each internal option assigns the field it is named after.
+func ruleOptionWiring(r *Run, rule string) {
+	for _, o := range []struct{ pub, internal, field string }{
+		{"WithMaxLastUpdate", "WithMaxLastUpdate", "maxLastUpdate"},
+		{"WithMaxSubmit", "WithMaxSubmit", "maxSubmit"},
+		{"WithNoRecovery", "WithNoRecovery", "recovery"},
+	} {
+		pf := r.fnByKey(rule, "coercion."+o.pub)
+		if pf != nil {
+			var callees []string
+			ast.Inspect(pf.Decl.Body, func(n ast.Node) bool {
+				if c, ok := n.(*ast.CallExpr); ok {
+					if f, ok := calleeFunc(pf.Pkg.TypesInfo, c); ok && strings.HasPrefix(FuncKey(f), pkgExec+".With") {
+						callees = append(callees, strings.TrimPrefix(FuncKey(f), pkgExec+"."))
+					}
+				}
+				return true
+			})
+			r.Check(rule, "option:coercion."+o.pub, pf.Decl.Pos(), len(callees) == 1 && callees[0] == o.internal, "coercion.%s must forward to execute.%s (forwards to %v): otherwise the configured value silently configures something else", o.pub, o.internal, callees)
+		}
+		inf := r.fnByKey(rule, execKey(o.internal))
+		if inf != nil {
+			var fields []string
+			info := inf.Pkg.TypesInfo
+			var param types.Object
+			if ps := inf.Decl.Type.Params.List; len(ps) > 0 && len(ps[0].Names) > 0 {
+				param = info.ObjectOf(ps[0].Names[0])
+			}
+			okVal := true
+			ast.Inspect(inf.Decl.Body, func(n ast.Node) bool {
+				if as, ok := n.(*ast.AssignStmt); ok && len(as.Lhs) == 1 && len(as.Rhs) == 1 {
+					if sel, ok := ast.Unparen(as.Lhs[0]).(*ast.SelectorExpr); ok {
+						if tv, ok := info.Types[sel.X]; ok && ShortType(tv.Type) == "execute.Plans" {
+							fields = append(fields, sel.Sel.Name)
+							if param != nil && ObjOf(info, as.Rhs[0]) != param {
+								okVal = false
+							}
+							if param == nil && ValueKey(info, as.Rhs[0]) != "false" {
+								okVal = false
+							}
+						}
+					}
+				}
+				return true
+			})
+			r.Check(rule, "option:execute."+o.internal, inf.Decl.Pos(), len(fields) == 1 && fields[0] == o.field && okVal, "execute.%s must set Plans.%s from its argument (sets %v)", o.internal, o.field, fields)
+		}
+	}
+}
+
+// ruleSkipRecoveredChecks: a check group is skipped only when it is absent.
+func ruleSkipRecoveredChecks(r *Run, rule string) {
+	fn := r.fnByKey(rule, pkgSM+".skipRecoveredChecks")
+	if fn == nil {
+		return
+	}
+	fl, paths, ok := r.flowPaths(rule, fn)
+	if !ok {
+		return
+	}
+	bad := ""
+	nTrue := 0
+	for i := range paths {
+		p := &paths[i]
+		isNil := false
+		for _, e := range p.Ev {
+			if e.Kind == EvBranch && e.Cond != nil {
+				if _, op, ok := IsNilCompare(fl.Info, e.Cond); ok && (op == token.EQL) == e.Taken {
+					isNil = true
+				}
+			}
+			if e.Kind == EvReturn && len(e.Rhs) == 1 {
+				v := ValueKey(fl.Info, e.Rhs[0])
+				if v == "true" {
+					nTrue++
+				}
+				if v != "false" && !isNil && bad == "" {
+					bad = "skipRecoveredChecks answers " + orOK(v, ExprStr(e.Rhs[0])) + " for a group that is present: PlanBypassChecks/PlanPreChecks would skip the gate of a recovered plan although the group (or the continuous checks run with it) has not passed"
+				}
+			}
+		}
+	}
+	if nTrue == 0 && bad == "" {
+		bad = "skipRecoveredChecks never answers true (a nil group must be skipped)"
+	}
+	r.Check(rule, "skipRecoveredChecks:true-only-for-absent-group", fn.Decl.Pos(), bad == "", "%s", orOK(bad, "true exactly for a nil group"))
+}
+
+// ruleRecoveryNoEarlyWrite: Recovery never persists a plan it is about to hand to Start or End;
+// only the resumed (Running) path writes it.
+func ruleRecoveryNoEarlyWrite(r *Run, rule string) {
+	fn := r.fnByKey(rule, smKey("Recovery"))
+	if fn == nil {
+		return
+	}
+	fl, paths, ok := r.flowPaths(rule, fn)
+	if !ok {
+		return
+	}
+	bad := ""
+	n := 0
+	for i := range paths {
+		p := &paths[i]
+		if p.Exit != ExitReturn {
+			continue
+		}
+		next := nextOf(fl, p)
+		if next != "Start" {
+			continue
+		}
+		n++
+		for _, e := range p.Ev {
+			if name, ok := isUpdaterCall(e); ok && bad == "" {
+				bad = "Recovery calls " + name + " on the path that restarts the plan from Start: a plan fixPlan reset to NotStarted would be stored as NotStarted, and after a second crash it is never found again (start-up only searches for Running plans)"
+			}
+		}
+	}
+	if n == 0 {
+		r.Unresolved(rule, "Recovery path to Start")
+		return
+	}
+	r.Check(rule, "Recovery:reset-plan-not-persisted-as-NotStarted", fn.Decl.Pos(), bad == "", "%s", orOK(bad, "no store write before Start rewrites the plan as Running"))
+}
+
+// ruleFixBlockLaunch: fixBlock re-launches only sequences that are still Running after fixSeq.
+func ruleFixBlockLaunch(r *Run, rule string) {
+	fn := r.fnByKey(rule, smKey("fixBlock"))
+	if fn == nil {
+		return
+	}
+	fl, paths, ok := r.flowPaths(rule, fn)
+	if !ok {
+		return
+	}
+	bad := ""
+	n := 0
+	var bpos token.Pos = fn.Decl.Pos()
+	for i := range paths {
+		p := &paths[i]
+		for gi, e := range p.Ev {
+			if !IsCall(e, keyGroupGo) {
+				continue
+			}
+			if l := LitArg(e.Call); l == nil || !callsFunc(fl.Info, l, smKey("execSeq")) {
+				continue
+			}
+			n++
+			// the most recent status test of the sequence in this iteration
+			st := ""
+			for j := gi - 1; j >= 0; j-- {
+				b := p.Ev[j]
+				if b.Kind == EvRange {
+					break
+				}
+				if b.Kind == EvBranch && b.Taken {
+					if v, ok := statusTest(fl.Info, b, "workflow.Sequence"); ok {
+						st = v
+						break
+					}
+				}
+			}
+			if st != "workflow.Running" && bad == "" {
+				bad, bpos = "fixBlock launches a sequence whose status after fixSeq is "+orOK(st, "untested")+": only sequences that were in flight at the crash (Running) may be resumed here — this launch is outside the block's Concurrency limiter, so anything else would exceed it", e.Pos
+			}
+		}
+	}
+	if n == 0 {
+		r.Unresolved(rule, "fixBlock launches execSeq")
+		return
+	}
+	r.Check(rule, "fixBlock:resumes-only-running-sequences", bpos, bad == "", "%s", orOK(bad, "launch under case Running only"))
 }
